@@ -1,17 +1,38 @@
 //! C18, part 3: the concurrent-expansion workload with real `std::thread`s, meant to run under
 //! Miri (`-Zmiri-many-seeds`), whose seeded scheduler preempts at arbitrary points and whose
 //! data-race detector sees what shuttle (which serialises tasks) cannot.  Shipped configuration.
-//! No text is parsed here: the regex compilation inside GameState::from_str is too slow for Miri.
+//! No diagram is parsed here: the regex compilation inside GameState::from_str is too slow for
+//! Miri.  The shared root is reached by a scripted game in which both sides shuffle a horse, so
+//! that its history holds positions that already occurred twice: expanding it consults the
+//! repetition history with mixed answers.
 use arimaa_engine_step::*;
 use std::sync::Arc;
 use std::thread;
 
-fn start() -> GameState {
+fn act(s: &str) -> Action {
+    s.parse().unwrap()
+}
+
+fn root() -> GameState {
     let mut s = GameState::initial();
     for _ in 0..2 {
         for a in ["r", "r", "r", "r", "r", "r", "r", "r", "h", "c", "d", "m", "e", "d", "c", "h"] {
-            s = s.take_action(&a.parse().unwrap());
+            s = s.take_action(&act(a));
         }
+    }
+    // gold: rabbit a2-a3, horse a1-a2; then both horses shuffle a1<->a2 and a7<->a6
+    let script = [
+        "a2n", "a1n", "p", "a7s", "p", //
+        "a2s", "p", "a6n", "p", "a1n", "p", "a7s", "p", //
+        "a2s", "p", "a6n", "p",
+    ];
+    for a in script {
+        let a = act(a);
+        // the script must be legal play (checked natively by `cargo run -p arena-miri -- check`)
+        if std::env::args().nth(2).as_deref() == Some("check") {
+            assert!(s.valid_actions().contains(&a), "scripted action {} not offered", a);
+        }
+        s = s.take_action(&a);
     }
     s
 }
@@ -31,55 +52,59 @@ fn digest(s: &GameState) -> u64 {
         }
         h ^= s.current_step() as u64;
     }
-    h ^ ((s.can_pass(true) as u64) << 1)
+    h ^ ((s.can_pass(true) as u64) << 1) ^ ((s.can_pass(false) as u64) << 2)
+}
+
+fn list_digest(s: &GameState) -> u64 {
+    let mut h = 0u64;
+    for a in s.valid_actions() {
+        h = h.rotate_left(3) ^ a.to_string().bytes().fold(0u64, |acc, b| acc.wrapping_mul(31).wrapping_add(b as u64));
+    }
+    h ^ (s.is_terminal().is_some() as u64)
 }
 
 fn main() {
     let seed: u64 = std::env::args().nth(1).map(|s| s.parse().unwrap()).unwrap_or(1);
-    // a root with a few turns of history, so that the list has shared links
-    let mut x = seed.wrapping_mul(0x9E3779B97F4A7C15) | 1;
-    let mut root = start();
-    for _ in 0..3 {
-        let va = root.valid_actions();
-        root = root.take_action(&va[(xorshift(&mut x) as usize) % va.len()]);
-        if root.can_pass(true) {
-            root = root.take_action(&Action::Pass);
-        }
-    }
-    let root = Arc::new(root);
+    let root = Arc::new(root());
     let root_digest = digest(&root);
+    let root_list = list_digest(&root);
     let mut hs = vec![];
     for t in 0..3u64 {
         let root = root.clone();
         hs.push(thread::spawn(move || {
             let mut x = seed.wrapping_mul(6364136223846793005).wrapping_add(t + 1) | 1;
             let mut trace = vec![];
-            // expand the shared root directly (shared reference), then play on privately
-            let va = root.valid_actions();
-            let a = va[(xorshift(&mut x) as usize) % va.len()];
-            let mut s = root.take_action(&a);
-            trace.push((a, digest(&s)));
+            // expand the shared root directly (shared reference); the third-repetition pass after
+            // a1n is withheld, so this consults the history
+            let first = if t == 0 { act("a1n") } else { let va = root.valid_actions(); va[(xorshift(&mut x) as usize) % va.len()] };
+            let shared_list = list_digest(&root);
+            let mut s = root.take_action(&first);
+            trace.push((first, digest(&s), list_digest(&s)));
             let keep = s.clone();
             for _ in 0..3 {
                 let va = s.valid_actions();
                 if va.is_empty() {
                     break;
                 }
-                let a = if s.can_pass(true) && xorshift(&mut x) % 2 == 0 { Action::Pass } else { va[(xorshift(&mut x) as usize) % va.len()] };
+                let a = if s.can_pass(true) && xorshift(&mut x) % 3 == 0 { Action::Pass } else { va[(xorshift(&mut x) as usize) % va.len()] };
                 s = s.take_action(&a);
-                trace.push((a, digest(&s)));
+                trace.push((a, digest(&s), if s.current_step() == 3 { list_digest(&s) } else { 0 }));
             }
             // hand the kept clone back to the main thread, which drops it (last owner elsewhere)
-            (trace, keep)
+            (trace, keep, shared_list)
         }));
     }
     let results: Vec<_> = hs.into_iter().map(|h| h.join().unwrap()).collect();
     assert_eq!(digest(&root), root_digest, "the shared root changed");
-    for (trace, keep) in results {
+    for (trace, keep, shared_list) in results {
+        assert_eq!(shared_list, root_list, "concurrent expansion of the shared root differs from sequential expansion");
         let mut s = (*root).clone();
-        for (i, (a, d)) in trace.iter().enumerate() {
+        for (i, (a, d, l)) in trace.iter().enumerate() {
             s = s.take_action(a);
             assert_eq!(digest(&s), *d, "concurrent result differs from sequential re-execution");
+            if i == 0 || s.current_step() == 3 {
+                assert_eq!(list_digest(&s), *l, "concurrent action list differs from sequential re-execution");
+            }
             if i == 0 {
                 assert_eq!(digest(&keep), *d);
             }
